@@ -151,6 +151,89 @@ METHOD_RAISERS = {
 }
 
 
+def _mentions_truthy(test: ast.AST, name: str) -> Optional[bool]:
+    """does `test` being true imply the list `name` is non-empty?  True / False (implies empty) / None"""
+    t = test
+    if isinstance(t, ast.Name) and t.id == name:
+        return True
+    if isinstance(t, ast.UnaryOp) and isinstance(t.op, ast.Not):
+        r = _mentions_truthy(t.operand, name)
+        return None if r is None else (not r)
+    if isinstance(t, ast.Call) and dotted(t.func) == "len" and t.args and isinstance(t.args[0], ast.Name) and t.args[0].id == name:
+        return True
+    if isinstance(t, ast.Compare) and len(t.ops) == 1:
+        l, r = t.left, t.comparators[0]
+        is_len = lambda e: isinstance(e, ast.Call) and dotted(e.func) == "len" and e.args and isinstance(e.args[0], ast.Name) and e.args[0].id == name
+        c = lambda e: e.value if isinstance(e, ast.Constant) and isinstance(e.value, int) else None
+        if is_len(l) and c(r) is not None:
+            if isinstance(t.ops[0], ast.Gt) and c(r) >= 0 or isinstance(t.ops[0], ast.GtE) and c(r) >= 1 or isinstance(t.ops[0], ast.NotEq) and c(r) == 0:
+                return True
+            if isinstance(t.ops[0], ast.Eq) and c(r) == 0 or isinstance(t.ops[0], ast.Lt) and c(r) == 1:
+                return False
+    if isinstance(t, ast.BoolOp) and isinstance(t.op, ast.And):
+        if any(_mentions_truthy(v, name) is True for v in t.values):
+            return True
+    return None
+
+
+def unguarded_empty_access(f: FuncInfo):
+    """`L.pop()` / `L[-1]` / `L[0]` on a local list L that starts empty, not under a non-emptiness guard
+    -> [(node, text)].  Guards: enclosing if/while/ifexp on L's truthiness, an earlier `if not L: return/continue/
+    break/raise` in the same block, or an append to L earlier in the same block."""
+    from ..dataflow import Defs, parent_map, is_terminating
+    defs = Defs(f.node)
+    pm = parent_map(f.node)
+    out = []
+    for n in walk_local(f.node):
+        name = None
+        if isinstance(n, ast.Call) and isinstance(n.func, ast.Attribute) and n.func.attr == "pop" and isinstance(n.func.value, ast.Name) and not n.args:
+            name = n.func.value.id
+        elif isinstance(n, ast.Subscript) and isinstance(n.ctx, ast.Load) and isinstance(n.value, ast.Name) and (
+                (isinstance(n.slice, ast.Constant) and isinstance(n.slice.value, int)) or
+                (isinstance(n.slice, ast.UnaryOp) and isinstance(n.slice.op, ast.USub) and isinstance(n.slice.operand, ast.Constant))):
+            name = n.value.id
+        if name is None:
+            continue
+        vals = defs.values(name)
+        if not vals or name in defs.params:
+            continue
+        starts_empty = any(k == "assign" and ((isinstance(v, ast.List) and not v.elts) or (isinstance(v, ast.Call) and dotted(v.func) == "list" and not v.args)) for k, v, st in vals)
+        only_lists = all(k == "assign" and isinstance(v, (ast.List, ast.Call, ast.ListComp)) for k, v, st in vals)
+        if not (starts_empty and only_lists):
+            continue
+        guarded = False
+        cur = n
+        while id(cur) in pm and not guarded:
+            par = pm[id(cur)]
+            if isinstance(par, (ast.If, ast.While, ast.IfExp)):
+                r = _mentions_truthy(par.test, name)
+                in_body = (cur is par.body) if isinstance(par, ast.IfExp) else any(cur is b for b in par.body)
+                in_else = (cur is par.orelse) if isinstance(par, ast.IfExp) else any(cur is b for b in par.orelse)
+                if (r is True and in_body) or (r is False and in_else):
+                    guarded = True
+            if isinstance(par, ast.BoolOp) and isinstance(par.op, ast.And):
+                idx = [i for i, v in enumerate(par.values) if v is cur]
+                if idx and any(_mentions_truthy(v, name) is True for v in par.values[:idx[0]]):
+                    guarded = True
+            if isinstance(par, ast.Try) and any(cur is b for b in par.body):
+                if any(h.type is None or "IndexError" in norm(h.type) or "Exception" in norm(h.type) for h in par.handlers):
+                    guarded = True
+            # earlier siblings
+            for fld in ("body", "orelse", "finalbody"):
+                blk = getattr(par, fld, None)
+                if isinstance(blk, list) and any(cur is b for b in blk):
+                    i = [j for j, b in enumerate(blk) if b is cur][0]
+                    for prev in blk[:i]:
+                        if isinstance(prev, ast.If) and _mentions_truthy(prev.test, name) is False and (is_terminating(prev.body) or isinstance(prev.body[-1], (ast.Continue, ast.Break))):
+                            guarded = True
+                        if isinstance(prev, ast.Expr) and isinstance(prev.value, ast.Call) and isinstance(prev.value.func, ast.Attribute) and prev.value.func.attr in ("append", "extend", "insert") and norm(prev.value.func.value) == name:
+                            guarded = True
+            cur = par
+        if not guarded:
+            out.append((n, name))
+    return out
+
+
 def r116(eng, rep, xf) -> None:
     prog, cg = eng.prog, eng.cg
     direct = cg.reachable(ROOTS)  # without the transformer registry edges: code whose exceptions lark does not wrap
@@ -185,6 +268,11 @@ def r116(eng, rep, xf) -> None:
             n += 1
             paths = xf.escapes(f, c, ("ext", hit[0]))
             rep.check(not paths, "R11.6", f.file, f.qual, norm(c, 70), "handled before a public entry", "%s; here it escapes the parser's public entry point" % hit[1], path=paths[0] if paths else None)
+        for node, name in unguarded_empty_access(f):
+            n += 1
+            paths = xf.escapes(f, node, ("ext", IndexError))
+            rep.check(not paths, "R11.6", f.file, f.qual, norm(node, 70), "handled before a public entry",
+                      "list '%s' starts empty and this access is not under a non-emptiness test: it raises IndexError when the list is empty; here it escapes the parser's public entry point" % name, path=paths[0] if paths else None)
     rep.extra["library_raiser_sites"] = n
     rep.ok("R11.6", "-", "-", "%d functions outside semantic actions scanned against the library-raiser table" % len(direct), "%d matching call sites" % n)
 
@@ -341,21 +429,45 @@ def r114(eng, rep, xf, parse_sites) -> None:
                 if len(s.node.args) > 1 and cs.node.args:
                     rep.check(norm(s.node.args[1]) == norm(cs.node.args[0]), "R11.4", f.file, f.qual, "add_source(_, %s) / parse(%s)" % (norm(s.node.args[1]), norm(cs.node.args[0])),
                               "the registered text is the parsed text", "the text registered with the logger is not the text that is parsed (cited lines may not exist)")
-        # MetaData filename args inside this function's handlers for the parse
+        # MetaData filename args inside this function's handlers for the parse (directly, or through a
+        # one-level helper that builds the MetaData from its parameters)
+        def md_file_arg(n):
+            fa = n.args[6] if len(n.args) >= 7 else None
+            for k in n.keywords:
+                if k.arg == "filename":
+                    fa = k.value
+            return fa
+
+        def is_md(n):
+            return isinstance(n, ast.Call) and cg.site_of.get(id(n)) and "fcp.specs.metadata.MetaData.__init__" in cg.site_of[id(n)].callees
+
         for t in xf.enclosing_tries(f, cs.node):
             for h in t.handlers:
                 for n in ast.walk(h):
-                    if isinstance(n, ast.Call) and cg.site_of.get(id(n)) and "fcp.specs.metadata.MetaData.__init__" in cg.site_of[id(n)].callees:
-                        fa = None
-                        if len(n.args) >= 7:
-                            fa = n.args[6]
-                        for k in n.keywords:
-                            if k.arg == "filename":
-                                fa = k.value
+                    cited = []  # (expression in f, text)
+                    if is_md(n):
+                        fa = md_file_arg(n)
                         if fa is not None:
-                            roots = {a.split(".")[0].split("[")[0] for a in pv.of(fa) if not a.startswith(("const:", "call:"))}
-                            rep.check(bool(roots) and roots <= keyroots, "R11.4", f.file, f.qual, "MetaData(filename=%s)" % norm(fa),
-                                      "cited file is the one registered (%s)" % ",".join(sorted(keyroots)), "the error cites a file (%s) other than the one registered with the logger (%s)" % (",".join(sorted(roots)), ",".join(sorted(keyroots))))
+                            cited.append((fa, "MetaData(filename=%s)" % norm(fa)))
+                    elif isinstance(n, ast.Call) and cg.site_of.get(id(n)) and len(cg.site_of[id(n)].callees) == 1 and cg.site_of[id(n)].how != "by-name":
+                        g = prog.functions.get(cg.site_of[id(n)].callees[0])
+                        passes_exc = h.name is not None and any(isinstance(x, ast.Name) and x.id == h.name for a_ in list(n.args) + [k.value for k in n.keywords] for x in ast.walk(a_))
+                        if g is not None and g.module.name.startswith("fcp.parser") and g.cls is None and passes_exc:
+                            gp = [p.arg for p in g.params]
+                            gpv = Provenance(g.node)
+                            for m in walk_local(g.node):
+                                if is_md(m) and md_file_arg(m) is not None:
+                                    for a in gpv.of(md_file_arg(m)):
+                                        r0 = a.split(".")[0].split("[")[0]
+                                        if r0 in gp:
+                                            i = gp.index(r0)
+                                            actual = n.args[i] if i < len(n.args) else next((k.value for k in n.keywords if k.arg == r0), None)
+                                            if actual is not None:
+                                                cited.append((actual, "%s(... %s=%s) -> MetaData(filename=%s)" % (g.name, r0, norm(actual), norm(md_file_arg(m)))))
+                    for fa, txt in cited:
+                        roots = {a.split(".")[0].split("[")[0] for a in pv.of(fa) if not a.startswith(("const:", "call:"))}
+                        rep.check(bool(roots) and roots <= keyroots, "R11.4", f.file, f.qual, txt,
+                                  "cited file is the one registered (%s)" % ",".join(sorted(keyroots)), "the error cites a file (%s) other than the one registered with the logger (%s)" % (",".join(sorted(roots)), ",".join(sorted(keyroots))))
     # (c) nodes handed to error()/results_in() on the parse path carry .meta
     tok = prog.classes.get("fcp.parser.Token")
     for q in sorted(xf.reach):
